@@ -36,6 +36,10 @@ first_missed = {
  'C14-d': 'simulate_expectation_values was not exercised (only expectation_from_state_vector / density_matrix on given states); expect.simulator_arguments.* (non-default initial states, qubit orders, sweeps) added afterwards',
  'C06-c': 'add_dynamical_decoupling was outside the first version; dynamical_decoupling.chain / chain_meas (pulses pulled through chains of two-qubit Cliffords to a wall, every schema, symbolic wall exponents; solver-driven bounded exploration) added afterwards',
  'C08-e': 'operation equality was only checked for gate families whose qubit interchangeability is fixed; equality.operations_exchange_param (PhasedFSimGate / FSimGate / PhasedISwapPowGate, symbolic angles and special values of theta) added afterwards',
+ 'C02-f': 'measurement gates reached the simulator only under their original key; a key-rewrite dimension (with_measurement_key_mapping, key path prefix, rescoping, with_key, CircuitOperation key map) was added to act_on_measure afterwards',
+ 'C04-e': 'controlled wrappers were exercised with 7 control-value specs on gates without a global phase; controlled.global_phase (zero-qubit phases and shifted gates under mixed control values, unitary and decomposition) added afterwards',
+ 'C03-e': 'C03 compares cirq.unitary(gate) with the documented matrix and does not run the in-place kernels; the change is caught by the C04 check (controlled.FSim / apply_unitary), see also_detected_by in meta.json',
+ 'C04-f': 'CircuitOperation is not in the C04 gate menu; the change is caught by the C12 check (unitary.single.*), see also_detected_by in meta.json',
  'C19-b': 'the concrete KAK fall-back menu only had gates with interaction (x,0,0); matrix-only gates with generic coefficients added afterwards',
 }
 still = {
